@@ -11,10 +11,10 @@ import (
 )
 
 type Config struct {
-	Bound    int           // max deviations per execution
-	Horizon  int           // scheduling points per execution
-	MaxExec  int64         // execution cap (0 = none); hitting it ends exploration with Exhaustive=false
-	Deadline time.Time     // wall-clock budget (zero = none); hitting it ends exploration with Exhaustive=false
+	Bound    int       // max deviations per execution
+	Horizon  int       // scheduling points per execution
+	MaxExec  int64     // execution cap (0 = none); hitting it ends exploration with Exhaustive=false
+	Deadline time.Time // wall-clock budget (zero = none); hitting it ends exploration with Exhaustive=false
 	// Delay: delay bounding (Emmi, Qadeer, Rakamaric 2011) — every departure from the default
 	// deterministic scheduler (running thread first, then lowest id) costs one deviation, also
 	// when the running thread blocked. Without it (preemption bounding) switches at blocking
